@@ -67,6 +67,7 @@ def run(prog, rep):
     from rules import c03
     c03.check_seek_after_eof(prog, rep, 'R10.11')
     c09.check_lookahead_fresh(prog, rep, 'R10.6')       # the stream reader must notice the end of input exactly where the memory reader does
+    c09.check_scanner_reads(prog, rep, 'R10.14')
 
     try:
         from rules import twins_extra
